@@ -2426,7 +2426,7 @@ impl Zeroconf {
         listener: Sender<HostnameResolutionEvent>,
         timeout: Option<u64>,
     ) {
-        let real_timeout = timeout.map(|t| current_time_millis() + t);
+        let real_timeout = timeout.map(|t| current_time_millis().saturating_add(t));
         self.hostname_resolvers
             .insert(hostname.to_lowercase(), (listener, real_timeout));
         if let Some(t) = real_timeout {
@@ -3969,7 +3969,7 @@ impl Zeroconf {
         let expire_at = if repeating {
             None
         } else {
-            Some(now + timeout.as_millis() as u64)
+            Some(now.saturating_add(timeout.as_millis().min(u64::MAX as u128) as u64))
         };
 
         // send query for the resource records.
